@@ -5,7 +5,7 @@ from .common import *
 RULE = ('cases: generated programs (chains): typed expression DAGs of depth <= 4 over static_number<D, E, RoundingTag, OverflowTag, '
         'Narrowest> / static_integer leaves (D in 1..100, E in -40..40, four rounding tags, saturated / throwing / trapping overflow '
         'tags, narrowest int8/int16/int; 64/128-bit and multi-word storage arise from the digit counts) using + - * / % unary -, the six '
-        'comparisons (both operand orders), and narrowing construction / assignment back to a leaf type; chains are drawn from VERIF_SEED, leaf values from the declared range by '
+        'comparisons (both operand orders), << by a run-time int, ++ / -- (both forms), and narrowing construction / assignment back to a leaf type; chains are drawn from VERIF_SEED, leaf values from the declared range by '
         'rapidcheck (extremes included). oracle: node by node in GMP rationals: exact value from exact children; for / the quotient '
         'of the reps rounded by the chain\'s rounding mode; for a narrowing construction the value rounded by the mode at the '
         'destination resolution; at each node the CNL value must equal it, or the overflow signal of the chain\'s tag must be '
@@ -32,7 +32,15 @@ def gen_chain(rng, idx):
             e = 0
         return d, e
 
-    def tname(d, e):
+    use_static_integer = rng.random() < 0.35  # exponent-0 types of this chain are spelled static_integer<...> (a different nesting)
+
+    def tname(d, e, dest=False):
+        # (a static_integer cannot be constructed from a static_number under a non-native rounding tag on the pinned tree: the
+        # conversion operator is missing, the program does not compile; such destinations are spelled static_number<D, 0>)
+        if e == 0 and use_static_integer and not (dest and rc != 'R_NATIVE'):
+            return 'cnl::static_integer<%d, %s, %s, %s>' % (d, rt, ot, nar)
+        if e == 0 and use_static_integer and dest:
+            EXCLUDED['static_integer destination under a non-native rounding tag (does not compile)'] = EXCLUDED.get('static_integer destination under a non-native rounding tag (does not compile)', 0) + 1
         return 'cnl::static_number<%d, %d, %s, %s, %s>' % (d, e, rt, ot, nar)
 
     lines, specs = [], []
@@ -46,7 +54,7 @@ def gen_chain(rng, idx):
     n = nleaf
     nops = rng.randint(2, 4)
     for k in range(nops):
-        kind = rng.choice(['ADD', 'SUB', 'MUL', 'DIV', 'NEG', 'CONVERT', 'CONVERT', 'MUL', 'ADD', 'MOD', 'CMP', 'ASSIGN'])
+        kind = rng.choice(['ADD', 'SUB', 'MUL', 'DIV', 'NEG', 'CONVERT', 'CONVERT', 'MUL', 'ADD', 'MOD', 'CMP', 'ASSIGN', 'SHL', 'INC', 'DEC'])
         values = [i for i in range(n) if types[i] is not None]  # comparison nodes are not operands
         a = rng.choice(values)
         b = rng.choice(values)
@@ -73,6 +81,19 @@ def gen_chain(rng, idx):
             lines.append('auto x%d = x%d / x%d; tr.rec(x%d);' % (n, a, b, n))
             specs.append('{c11::DIV, %d, %d, 0, 0}' % (a, b))
             types[n] = (da, ea - eb)
+        if kind in ('INC', 'DEC') and not (ea <= 0 and da > -ea):
+            kind = 'SHL'  # one is not a value of the type: no ++/--
+        if kind == 'SHL':
+            k = rng.choice([1, 1, 2, 3])
+            lines.append('auto x%d = x%d << %d; tr.rec(x%d);' % (n, a, k, n))
+            specs.append('{c11::SHL, %d, %d, 0, 0}' % (a, k))
+            types[n] = (da, ea)
+        if kind in ('INC', 'DEC'):
+            post = rng.randrange(2)
+            op = '++' if kind == 'INC' else '--'
+            lines.append('auto x%d = x%d; %s; tr.rec(x%d);' % (n, a, ('x%d%s' % (n, op)) if post else ('%sx%d' % (op, n)), n))
+            specs.append('{c11::%s, %d, %d, 0, 0}' % (kind, a, post))
+            types[n] = (da, ea)
         if kind == 'MOD':
             lines.append('auto x%d = x%d %% x%d; tr.rec(x%d);' % (n, a, b, n))
             specs.append('{c11::MOD, %d, %d, 0, 0}' % (a, b))
@@ -97,15 +118,18 @@ def gen_chain(rng, idx):
                 EXCLUDED['C11-conversion-shifts-out-all-digits'] = EXCLUDED.get('C11-conversion-shifts-out-all-digits', 0) + 1
                 e = ea + max(0, da - 1)
                 d = max(1, min(250, top - e + 1))
+            dt = tname(d, e, dest=True)
             if kind == 'ASSIGN':
-                lines.append('%s x%d{}; x%d = x%d; tr.rec(x%d);' % (tname(d, e), n, n, a, n))
+                lines.append('%s x%d{}; x%d = x%d; tr.rec(x%d);' % (dt, n, n, a, n))
             else:
-                lines.append('auto x%d = %s{x%d}; tr.rec(x%d);' % (n, tname(d, e), a, n))
-            specs.append('{c11::%s, %d, -1, %d, %d}' % (kind, a, d, e))
+                lines.append('auto x%d = %s{x%d}; tr.rec(x%d);' % (n, dt, a, n))
+            specs.append('{c11::%s, %d, %d, %d, %d}' % (kind, a, -2 if 'static_integer' in dt else -1, d, e))
             types[n] = (d, e)
         n += 1
-    name = 'C11|chain|%04d|%s|%s|%s' % (idx, rc[2:].lower(), oc[2:].lower(), nar.replace(' ', '_'))
     body = ' '.join(lines)
+    import hashlib
+    # the name carries a hash of the program: replay files, known-finding witnesses and the in-region corpus name a chain, not a position
+    name = 'C11|chain|%04d-%s|%s|%s|%s' % (idx, hashlib.sha1((body + '|'.join(specs)).encode()).hexdigest()[:6], rc[2:].lower(), oc[2:].lower(), nar.replace(' ', '_'))
     nd = {'signed char': 7, 'short': 15, 'int': 31}[nar]
     return 'c11::add_chain("%s", c11::%s, c11::%s, %d, {%s}, [](c11::Inputs const& in, c11::Trace& tr) { %s })' % (name, rc, oc, nd, ', '.join(specs), body)
 
@@ -134,6 +158,29 @@ FIXED = [
     % (_sn(31, -8, 'cnl::tie_to_pos_inf_rounding_tag', 'cnl::trapping_overflow_tag', 'short'), _sn(1, -8, 'cnl::tie_to_pos_inf_rounding_tag', 'cnl::trapping_overflow_tag', 'short')),
     'c11::add_chain("C11|chain|fixed-divbias|nearest|saturated|int", c11::R_NEAREST, c11::O_SATURATED, 31, {{c11::LEAF, -1, -1, 31, 0}, {c11::LEAF, -1, -1, 8, 0}, {c11::DIV, 0, 1, 0, 0}}, '
     '[](c11::Inputs const& in, c11::Trace& tr) { auto x0 = c11::leaf<%s>(in, 0); tr.rec(x0); auto x1 = c11::leaf<%s>(in, 1); tr.rec(x1); auto x2 = x0 / x1; tr.rec(x2); })' % (_sn(31, 0, _N, _S, 'int'), _sn(8, 0, _N, _S, 'int')),
+]
+
+
+def _incdec_chain(name, d, e, r, rc, o, oc, nar, nd):
+    t = _sn(d, e, r, o, nar) if e != 0 else 'cnl::static_integer<%d, %s, %s, %s>' % (d, r, o, nar)
+    return ('c11::add_chain("C11|chain|%s", c11::%s, c11::%s, %d, {{c11::LEAF, -1, -1, %d, %d}, {c11::INC, 0, 0, 0, 0}, {c11::DEC, 0, 1, 0, 0}, {c11::INC, 1, 1, 0, 0}, {c11::DEC, 2, 0, 0, 0}, {c11::SHL, 0, 1, 0, 0}}, '
+            '[](c11::Inputs const& in, c11::Trace& tr) { auto x0 = c11::leaf<%s>(in, 0); tr.rec(x0); auto x1 = x0; ++x1; tr.rec(x1); auto x2 = x0; x2--; tr.rec(x2); auto x3 = x1; x3++; tr.rec(x3); '
+            'auto x4 = x2; --x4; tr.rec(x4); auto x5 = x0 << 1; tr.rec(x5); })' % (name, rc, oc, nd, d, e, t))
+
+
+# ++ / -- / << at the edge of the declared range, every overflow tag (part of every program)
+FIXED += [
+    _incdec_chain('fixed-incdec-7|nearest|saturated|int', 7, 0, _N, 'R_NEAREST', _S, 'O_SATURATED', 'int', 31),
+    _incdec_chain('fixed-incdec-12|native|throwing|signed_char', 12, -4, 'cnl::native_rounding_tag', 'R_NATIVE', 'cnl::_impl::throwing_overflow_tag', 'O_THROWING', 'signed char', 7),
+    _incdec_chain('fixed-incdec-31|neg_inf|trapping|int', 31, 0, _T, 'R_NEG_INF', 'cnl::trapping_overflow_tag', 'O_TRAPPING', 'int', 31),
+    _incdec_chain('fixed-incdec-40|tie_pos|saturated|short', 40, -8, 'cnl::tie_to_pos_inf_rounding_tag', 'R_TIE_POS', _S, 'O_SATURATED', 'short', 15),
+]
+
+
+_NAT, _THR = 'cnl::native_rounding_tag', 'cnl::_impl::throwing_overflow_tag'
+FIXED += [
+    'c11::add_chain("C11|chain|fixed-static-integer-from-coarser|native|throwing|int", c11::R_NATIVE, c11::O_THROWING, 31, {{c11::LEAF, -1, -1, 9, 3}, {c11::CONVERT, 0, -2, 11, 0}}, '
+    '[](c11::Inputs const& in, c11::Trace& tr) { auto x0 = c11::leaf<%s>(in, 0); tr.rec(x0); auto x1 = cnl::static_integer<11, %s, %s, int>{x0}; tr.rec(x1); })' % (_sn(9, 3, _NAT, _THR, 'int'), _NAT, _THR),
 ]
 
 
